@@ -82,13 +82,17 @@ func preSteps(rec *world.Recording, snap world.Snapshot) map[string][]storage.Me
 	out := map[string][]storage.Message{"none": nil}
 	// (1) a reinitialisation message that cannot be completed: its round id is blank, so the
 	// replay loop runs and creating the round afterwards fails
-	bad := types.ReDKG{DKGID: "   ", Threshold: w.T}
-	out["failed-reinit"] = []storage.Message{world.SignedMessage(rec.Round, string(types.ReinitDKG), world.MustJSON(bad), w.Nodes[1].Name, w.Nodes[1].KeyPair.Priv, "")}
+	// (both carry what a 0.1.4-adapted dump carries: unsigned self-confirmations, the one kind of
+	// replayed message the node cannot verify - whatever switch it flips for them must be back
+	// in place afterwards)
+	bad := types.ReDKG{DKGID: "   ", Threshold: w.T, Messages: replayedWithPatches(w, "   ")[1:]}
+	out["failed-reinit"] = []storage.Message{world.SignedMessage("   ", string(types.ReinitDKG), world.MustJSON(bad), w.Nodes[1].Name, w.Nodes[1].KeyPair.Priv, "")}
 	// (2) a reinitialisation message about a round this node does not know
 	other := types.ReDKG{DKGID: "0000000000000000000000000000000000000000000000000000000000000042", Threshold: w.T}
 	for i, nd := range w.Nodes {
 		other.Participants = append(other.Participants, types.Participant{DKGPubKey: w.Airs[i].PubKeyBytes(), OldCommPubKey: nd.KeyPair.Pub, NewCommPubKey: nd.KeyPair.Pub, Name: nd.Name})
 	}
+	other.Messages = replayedWithPatches(w, other.DKGID)
 	out["unrelated-reinit"] = []storage.Message{world.SignedMessage(other.DKGID, string(types.ReinitDKG), world.MustJSON(other), w.Nodes[1].Name, w.Nodes[1].KeyPair.Priv, "")}
 	// (3) the opening proposal of a second round with the same participants
 	idx := make([]int, w.N)
@@ -188,4 +192,22 @@ func changedProtected(before, after world.Snapshot) []string {
 func freshKey(label string) ed25519.PrivateKey {
 	s := sha256.Sum256([]byte("verif-fresh:" + label))
 	return ed25519.NewKeyFromSeed(s[:])
+}
+
+// replayedWithPatches is the message list of a reinitialisation file for round id: the opening
+// proposal followed by one unsigned self-confirmation per participant (what the 0.1.4 adaptation
+// adds; each node handles the one addressed to itself).
+func replayedWithPatches(w *world.World, id string) []storage.Message {
+	idx := make([]int, w.N)
+	for i := range idx {
+		idx[i] = i
+	}
+	req := w.InitProposal(w.T, idx)
+	req.CreatedAt = world.T0.Add(33)
+	out := []storage.Message{world.SignedMessage(id, string(spf.EventInitProposal), world.MustJSON(req), w.Nodes[0].Name, w.Nodes[0].KeyPair.Priv, "")}
+	for i, nd := range w.Nodes {
+		sc := requests.DKGProposalDealConfirmationRequest{ParticipantId: i, Deal: []byte("self-confirm"), CreatedAt: world.T0}
+		out = append(out, storage.Message{DkgRoundID: id, Event: "event_dkg_deal_confirm_received", Data: world.MustJSON(sc), SenderAddr: nd.Name, RecipientAddr: nd.Name})
+	}
+	return out
 }
